@@ -176,8 +176,11 @@ def check(pid, tier, seed):
     # 0. regenerate the tables / registry from the current sources (translator)
     g = subprocess.run([sys.executable, os.path.join(ROOT, "translator", "generate.py")], capture_output=True, text=True)
     notes["translator"] = (g.stdout + g.stderr).strip()[-300:]
+    if g.returncode == 0:
+        g = subprocess.run([sys.executable, os.path.join(ROOT, "translator", "interface.py")], capture_output=True, text=True)
+        notes["translator_interface"] = (g.stdout + g.stderr).strip()[-300:]
     if g.returncode != 0:
-        path = write_replay(pid, "build", seed, 0, {"broken_theorem_or_stream": "translator failed on /repo's sources", "detail": notes["translator"]})
+        path = write_replay(pid, "build", seed, 0, {"broken_theorem_or_stream": "translator failed on /repo's sources", "detail": notes["translator"] + " " + notes.get("translator_interface", "")})
         return finish(pid, tier, seed, t0, spec, None, None, None, [("build", path, True)], [], notes)
     # 1. builds from the current tree
     builds = spec.get("builds", ["osmosis"])
@@ -297,6 +300,24 @@ def check(pid, tier, seed):
             violations.append(("witness", path, False))
             new[("witness", n)] = det
     # broken proof / correspondence with no monitor finding -> search, then report
+    if proofs["broken"] and not new and not spec.get("skip_staking") and any(
+            "Interface" in str(b_.get("file", "")) for b_ in proofs["broken"] if isinstance(b_, dict)):
+        # the source declares a message the model does not cover: send it (fields filled by type, any sender) to the
+        # real contract in implementation-led histories under the monitors
+        sprofile = dict(profile)
+        sprofile["weights"] = dict(spec["weights"], unknown=60, breaker=6, resume=6)
+        s4, _, f4 = run_parallel(200 if quick else 2000, seed + 77, sprofile, length, builds[0], "impl", workers)
+        all_stats.merge(s4)
+        for f in f4:
+            if f["property"] == pid and match_known(f, known) is None:
+                key = (f["monitor"], json.dumps(f["signature"], sort_keys=True))
+                if key not in new:
+                    new[key] = f
+                    n += 1
+                    path = write_replay(pid, "monitor", f["seed"], n, {"seed": f["seed"], "monitor": f["monitor"], "signature": f["signature"],
+                                                                        "what": f["what"], "failing_event": f["event"], "events": f["events"],
+                                                                        "broken_theorem": proofs["broken"], "found_by": "search after the interface theorem broke"})
+                    violations.append(("monitor", path, False))
     if proofs["broken"] and not new:
         path = write_replay(pid, "proof", seed, 0, {"broken_theorem_or_stream": proofs["broken"],
                                                      "searched": "model-led and implementation-led monitors over %d histories" % all_stats.histories})
@@ -416,6 +437,8 @@ def cmd_setup():
     t = time.time()
     g = subprocess.run([sys.executable, os.path.join(ROOT, "translator", "generate.py")], capture_output=True, text=True)
     print("translator:", (g.stdout + g.stderr).strip()[-300:])
+    g2 = subprocess.run([sys.executable, os.path.join(ROOT, "translator", "interface.py")], capture_output=True, text=True)
+    print("translator:", (g2.stdout + g2.stderr).strip()[-300:])
     hb = build_harness(("osmosis", "miniwasm"))
     for b, v in hb.items():
         print("harness[%s]: rc=%d %.0fs %s" % (b, v["rc"], v["wall_s"], v["tail"][-400:]))
